@@ -17,7 +17,7 @@ from . import designs, e2e
 from .c05 import effective_errors
 from .c06 import effective as effective_reqs, cred_locations
 
-FLAGS = [[], ["-errors"], ["-security"], ["-security", "-errors"]]
+FLAGS = [[], ["-errors"], ["-security"], ["-security", "-errors"], ["-meta"]]
 
 
 def hx(s):
@@ -34,6 +34,8 @@ def expected_ops(design):
                 continue
             for path in [h["path"]] + (h.get("more_paths") or []):
                 out.append((h["verb"], (design.get("path") or "") + (s.get("path") or "") + path, s, m))
+            for verb, path in h.get("more_routes") or []:
+                out.append((verb, (design.get("path") or "") + (s.get("path") or "") + path, s, m))
     return out
 
 
@@ -53,7 +55,10 @@ def expected_params(design, s, m, version):
                 continue  # documented as a security scheme
             if loc == "cookie" and version == 2:
                 continue  # OpenAPI 2.0 has no cookie parameters
-            out[(mp.get("wire") or mp["attr"], loc)] = mp["attr"] in req and not fields.get(mp["attr"], {}).get("has_default")
+            # Required AND defaulted: the design says required, the server never reports it missing; goa documents query
+            # parameters one way and headers the other. The flag is not compared then (None); the mismatch with the server
+            # is C14's finding doc-rejects-what-server-accepts:param/required-but-missing
+            out[(mp.get("wire") or mp["attr"], loc)] = None if (mp["attr"] in req and fields.get(mp["attr"], {}).get("has_default")) else mp["attr"] in req
     return out
 
 
@@ -111,11 +116,14 @@ def run(c):
         return
     drv = os.path.join(LEAN, ".lake/build/bin/drv_oas")
     work = designs.scratch("C07")
-    builds = e2e.build_many(c.seed, range(n), lambda i: FLAGS[i % 4], work)
+    builds = e2e.build_many(c.seed, range(n), lambda i: FLAGS[i % 5], work)
     total = 0
     for b in builds:
         if b.error:
             c.hist("build", "rejected" if b.error.startswith("rejected") else "failed")
+            if not b.error.startswith("rejected"):
+                c.fail("e2e-build", "design %d could not be generated/built: %s" % (b.index, b.error[:300]),
+                       input={"seed": c.seed, "index": b.index, "flags": getattr(b, "flags", None)}, design=b.design, expected="builds", actual=b.error)
             b.cleanup()
             continue
         c.hist("build", "ok")
@@ -205,7 +213,7 @@ def run(c):
                         fail("openapi%d/parameter-missing/%s" % (ver, k[1]), "%s: the server reads %s parameter %r, the document does not list it" % (name, k[1], k[0]), expected=str(want), actual=str(got))
                     elif k not in want:
                         fail("openapi%d/parameter-unknown/%s" % (ver, k[1]), "%s: the document lists %s parameter %r the design does not map" % (name, k[1], k[0]), expected=str(want), actual=str(got))
-                    elif want[k] != got[k]:
+                    elif want[k] is not None and want[k] != got[k]:
                         fail("openapi%d/parameter-required-flag/%s" % (ver, k[1]), "%s: %s parameter %r required=%s in the document, %s in the design" % (name, k[1], k[0], got[k], want[k]))
                 if o["body"] != has_body(m):
                     fail("openapi%d/request-body-%s" % (ver, "undocumented" if has_body(m) else "documented-but-not-read"), "%s: request body documented=%s, the server expects one=%s" % (name, o["body"], has_body(m)))
@@ -269,6 +277,8 @@ def classify_yaml_diff(rep, key):
         return "bytes-example-is-base64-in-json-and-integer-list-in-yaml"
     if d.get("json_type") == "string" and d.get("yaml_type") == "string" and d.get("json", "").strip()[:300] == d.get("yaml", "").strip()[:300]:
         return "leading-or-trailing-whitespace-of-a-string"
+    if d.get("json") == "<nil>" and d.get("yaml") == "" and d.get("yaml_type") == "string":
+        return "empty-string-omitted-in-json-only"
     return "other"
 
 
